@@ -204,7 +204,19 @@ func checkC19(c *Checker) {
 		for _, o := range s.Outcomes {
 			for _, e := range mods(o) {
 				if e.Kind == EStoreElem && effectRoot(e) == dstRoot && strings.HasSuffix(e.Stor.Name, ".data") {
-					// the matching bounds obligation is against the view's own length
+					// the store must be bounds-checked against the view's own length: the indexed slice is the
+					// header's data as loaded (not re-extended into the capacity, which other windows share)
+					lenAtom := mkAtom("len("+e.Stor.Name+")", intT)
+					bounded := false
+					for _, ix := range o.St.effects {
+						if ix.Kind == EIndex && ix.Note != "slice" && ix.Pos == e.Pos && ix.Stor == e.Stor && ix.Seq < e.Seq && eqInt(ix.Hi, lenAtom) {
+							bounded = true
+						}
+					}
+					if !bounded && !e.Facts.impliesGE0(normInt(lenAtom).Sub(normInt(e.Idx)).AddInt(-1)) {
+						ok = false
+						detail = fmt.Sprintf("store is not bounds-checked against the view's own length (the slice was extended into the shared capacity): %s at %s", e.String(), c.effPos(e))
+					}
 					continue
 				}
 				ok = false
@@ -212,6 +224,20 @@ func checkC19(c *Checker) {
 			}
 		}
 		c.expect(ok, "C19-N2", inst, c.pos(fn.Pos()), "indexed stores into the view's own window only", detail)
+	}
+	// N4: storage sharing only through Slice. A read-only use of a shared buffer (e.g. as the source of Append or of
+	// a conversion) must not leave another buffer's header pointing into the shared storage, otherwise a later
+	// "private" write races with the readers. This is C12-V2/V4 (new data derives from the header's own old data;
+	// no backing slice is handed out), re-evaluated here.
+	c.rule("C19-N4", "no operation makes a header point into another buffer's storage or hands out a backing slice (C12-V2, C12-V4)", 20)
+	sub := newChecker(c.Prop, c.Tier, c.Seed, c.verifDir)
+	sub.W = c.W
+	sub.sums = c.sums
+	checkC12(sub)
+	for _, o := range sub.Obligs {
+		if o.Rule == "C12-V2" || o.Rule == "C12-V4" {
+			c.add("C19-N4", o.Rule+"/"+o.Instance, o.Pos, o.Verdict, o.Detail, o.Witness)
+		}
 	}
 	// N3: package-level variables
 	var globals []string
